@@ -31,7 +31,7 @@ def setups(draw, kinds=("grid", "grid", "sub", "stream"), loops=(-1, 1, 2, 3), f
         "cache": draw(st.sampled_from([False, True, max(1, n - 1), max(1, n), n + 1])) if force_cache is None else force_cache,
         "ctor": draw(st.sampled_from(["init", "init", "iter", "from_data"])),
         "pad": draw(pad_spec()), "fill": draw(st.sampled_from(FILLS)),
-        "dur": draw(dur_st), "salt": draw(st.sampled_from([None, 0, 1, 5])),
+        "dur": draw(dur_st), "salt": draw(st.sampled_from([None, 0, 1, 5, -1])),
         "cols": draw(st.integers(1, 30)), "rows": draw(st.integers(1, 20)),
     }
     return s
@@ -58,7 +58,7 @@ def ops(draw, n_hint=7, max_len=30, with_close=True):
             o["fill"] = draw(st.sampled_from(FILLS))
         elif k == "args":
             o["kind"] = draw(st.sampled_from(["grid", "grid", "base", "sub", "other", "same"]))
-            o["salt"] = draw(st.sampled_from([0, 1, 2, 5]))
+            o["salt"] = draw(st.sampled_from([0, 1, 2, 5, -1, -2]))  # -1 / -2: distinct values with equal hash() in CPython
         elif k == "size":
             o["w"], o["h"] = draw(st.integers(1, 5)), draw(st.integers(1, 3))
         elif k == "rseek":
